@@ -755,6 +755,17 @@ func (e *FEnc) evalCall(env *Env, x *Ex) (*Val, error) {
 			}
 		}
 		return nil, fmt.Errorf("unknown name result(%s): no such call on the way here", x.Args[0].Name)
+	case "ncalls": // ncalls("pkg.Type.Method"): the number of calls to that callee executed on the way to this point
+		if len(x.Args) != 1 || x.Args[0].Op != "str" || env.st == nil {
+			return nil, fmt.Errorf("ncalls(\"callee name\")")
+		}
+		t := "0"
+		for _, k := range sortedKeys(env.st.ncalls) {
+			if matchPat(x.Args[0].Name, k) {
+				t = "(+ " + t + " " + env.st.ncalls[k] + ")"
+			}
+		}
+		return e.intVal(t), nil
 	case "called": // called("pkg.Type.Method"): a call to that callee was executed on the way to this point
 		if len(x.Args) != 1 || x.Args[0].Op != "str" || env.st == nil {
 			return nil, fmt.Errorf("called(\"callee name\")")
